@@ -802,6 +802,30 @@ func (m *Model) stmt1(s *N, sc *Scope) ctl {
 			m.feat("defer_with_spread_list")
 			return ok0
 		}
+		if fn.Host == "gset" {
+			// defer gset(&name, v) (gen_deferaddr.go): registered like every deferred call, both operands
+			// are evaluated at the defer statement. What the Go function stores through the pointer when
+			// it runs is not followed: whether it reaches the variable is not stated anywhere, and the
+			// generator never reads the variable after the deferred call has run
+			if len(args) != 2 || args[0].K != "addr" || args[0].Ns[0].K != "id" {
+				m.unspec("deferred gset called with something else than (&name, value)")
+			}
+			av := make([]interface{}, 0, 2)
+			for _, a := range args {
+				v, c := m.eval(a, sc)
+				if c.s != sNone {
+					return c
+				}
+				if _, isInt := v.(int64); !isInt {
+					m.unspec("deferred gset on a variable / of a value that is not an int")
+				}
+				av = append(av, v)
+			}
+			cur := m.inv[len(m.inv)-1]
+			cur.defers = append(cur.defers, deferred{fn: fn, args: av})
+			m.feat("defer_registered")
+			return ok0
+		}
 		if fn.HP != nil {
 			// typed Go function: operands are evaluated and converted at the defer
 			// statement; the functions themselves are free of side effects
@@ -1017,6 +1041,11 @@ func (m *Model) apply(fn *Func, args []interface{}) (interface{}, ctl) {
 		if m.inDeferred > 0 {
 			m.feat("deferred_probe_of_its_arguments_run")
 		}
+		return nil, ok0
+	case "gset":
+		// reached by a deferred gset(&name, v) only (ordinary calls go through callHost): the Go function
+		// runs, yields nothing and logs nothing
+		m.feat("deferred_go_call_with_address_argument_run")
 		return nil, ok0
 	}
 	if m.depth > 60 {
